@@ -54,6 +54,8 @@ MIN = {'quick': {'distinct': 250,
                                  ('driver: equals library composition', 150),
                                  ('word with non-ASCII space character', 6),
                                  ('driver with --counting', 100),
+                                 ('driver: a transformation named twice', 10),
+                                 ('driver: a flag given with a value', 15),
                                  ('TIGER-XML source without a node above the '
                                   'top constituent', 12),
                                  ('TIGER-XML source: one-token sentence '
@@ -716,6 +718,12 @@ def run_driver(ctx, case, rng):
                       case['params'], i, got[max(0, i - 30):i + 30],
                       want[max(0, i - 30):i + 30]))
     ctx.stratum('driver: equals library composition')
+    if case.get('repeated'):
+        ctx.stratum('driver: a transformation named twice')
+    if case.get('flagval'):
+        ctx.stratum('driver: a flag given with a value')
+    if len([p_ for p_ in case['params'] if p_.startswith('filtervalue:')]) > 1:
+        ctx.stratum('driver: the same parameter twice')
     for o in case['sopts'] + case['dopts'] + case['trans']:
         if o != 'quiet':
             ctx.stratum('driver with ' + o.split(':')[0])
@@ -728,6 +736,7 @@ def draw_driver(rng):
     denc = rng.choice(['utf-8', 'utf-8', 'latin-1', 'utf-16'])
     trans, params, dopts, sopts = [], [], [], ['quiet']
     punct_bank = False
+    repeated = flagval = False
     r = rng.random()
     resolve = False
     if r < 0.2:
@@ -777,6 +786,22 @@ def draw_driver(rng):
             params.append('mark_heads_preset:negra')
             dopts.append('mark_heads_marking')
         punct_bank = True
+    elif r < 0.82:
+        # a transformation named twice, something else in between: every
+        # entry of --trans is applied, in the order given
+        trans = rng.choice([
+            ['root_attach', 'punctuation_root', 'root_attach'],
+            ['punctuation_root', 'punctuation_verylow', 'punctuation_root'],
+            ['punctuation_verylow', 'punctuation_root', 'punctuation_verylow'],
+            ['negra_mark_heads', 'punctuation_delete', 'negra_mark_heads'],
+            ['add_topnode', 'add_topnode'],
+            ['add_topnode', 'collapse_unary_chains', 'add_topnode'],
+            ['root_attach', 'negra_mark_heads', 'boyd_split', 'raising',
+             'punctuation_root', 'negra_mark_heads', 'boyd_split', 'raising']])
+        if 'negra_mark_heads' in trans:
+            dopts.append('mark_heads_marking')
+        punct_bank = True
+        repeated = True
     cont = sfmt == 'brackets' or (dfmt == 'brackets' and not resolve
                                   and rng.random() < 0.8)
     if dfmt == 'brackets' and not cont and not resolve and rng.random() < 0.5:
@@ -805,10 +830,24 @@ def draw_driver(rng):
     if rng.random() < 0.3:
         sopts.append('brackets_firstid:%d' % rng.choice([0, 9, 500]))
     rng.shuffle(dopts)
+    if rng.random() < 0.3:
+        # a flag may be given with a value (key:value is the documented form
+        # of every option): it is on whenever it is named
+        r2 = __import__('random').Random(rng.random())
+        for lst in (dopts, sopts):
+            for i_, o_ in enumerate(lst):
+                if ':' not in o_ and o_ != 'quiet' and r2.random() < 0.5:
+                    lst[i_] = o_ + r2.choice([':1', ':true', ':yes'])
+                    flagval = True
+    if params and rng.random() < 0.25 and any(
+            p_.startswith('filtervalue:') for p_ in params):
+        # the same key twice: the later entry counts
+        params.insert(0, 'filtervalue:%d' % rng.randint(1, 40))
     case = {'kind': 'driver', 'src': sfmt, 'dst': dfmt, 'senc': senc,
             'denc': denc, 'trans': trans, 'params': params, 'dopts': dopts,
             'sopts': sopts, 'seed': rng.randrange(10 ** 6),
-            'gz': sfmt != 'tigerxml' and rng.random() < 0.15}
+            'gz': sfmt != 'tigerxml' and rng.random() < 0.15,
+            'repeated': repeated, 'flagval': flagval}
     lim = 'latin-1' if 'latin-1' in (senc, denc) else 'utf-8'
     case['bank'] = make_bank(rng, cont, lim, sfmt in ('export', 'tigerxml'),
                              sfmt == 'export', sfmt == 'tigerxml')
